@@ -31,7 +31,7 @@
 
 
 #define WAV_BEXT_MIN_CHUNK_SIZE		602
-#define WAV_BEXT_MAX_CHUNK_SIZE		(10 * 1024)
+#define WAV_BEXT_MAX_CHUNK_SIZE		(WAV_BEXT_MIN_CHUNK_SIZE + 16 * 1024)
 
 #define WAV_CART_MIN_CHUNK_SIZE		2048
 #define WAV_CART_MAX_CHUNK_SIZE		0xffffffff
